@@ -214,8 +214,24 @@ class ModelFittingDataTree(ProblemSingleObjective):
                     weights_from_file=weights_from_file,
                 )
 
-            self.all_target_data = targets.isel(indexers=target_fit_range.to_dict())
+            self.all_target_data = targets.isel(
+                indexers=self._get_target_indexers(targets, target_fit_range)
+            )
             self.target_full_scale = targets
+
+    @staticmethod
+    def _get_target_indexers(
+        data: xr.DataArray, fit_range: FitRange2D | FitRange3D
+    ) -> dict[str, slice]:
+        """Get the indexers of a fit range for a target data array.
+
+        The time dimension of the target data cubes is 'readout_time'.
+        """
+        indexers: dict[str, slice] = dict(fit_range.to_dict())
+        if "time" in indexers and "time" not in data.dims:
+            indexers["readout_time"] = indexers.pop("time")
+
+        return indexers
 
     def get_bounds(self) -> tuple[Sequence[float], Sequence[float]]:
         """Get the box bounds of the problem (lower_boundary, upper_boundary).
@@ -254,7 +270,9 @@ class ModelFittingDataTree(ProblemSingleObjective):
                 )
 
             self.weighting_from_file = weights_data_array.isel(
-                indexers=self.targ_fit_range.to_dict()
+                indexers=self._get_target_indexers(
+                    weights_data_array, self.targ_fit_range
+                )
             )
 
         elif weights is not None:
